@@ -276,10 +276,15 @@ FvLoop(font, nlims, r, acc, ideal) ==      \* acc = [recs, applied, defsub, univ
            nb == NewBox(box, nlims)
            uniq == \A q \in 1..Len(acc.recs) : acc.recs[q].box # nb
            applies == BoxAtDefault(box, nlims)
-           acc2 == [recs |-> IF keep /\ uniq THEN Append(acc.recs, [box |-> nb, sub |-> font.fvs[r].sub]) ELSE acc.recs,
+           univ == keep /\ NoConditions(nb)
+           (* ideally a record that holds on the whole new space is not stored: its substitution
+              becomes the default feature set (every kept record precedes it and still wins where
+              it matches), nothing after it can ever apply and nothing needs re-instating *)
+           fold == ideal /\ univ
+           acc2 == [recs |-> IF keep /\ uniq /\ ~fold THEN Append(acc.recs, [box |-> nb, sub |-> font.fvs[r].sub]) ELSE acc.recs,
                     applied |-> acc.applied \/ applies,
-                    defsub |-> IF applies /\ ~acc.applied THEN font.fvs[r].sub ELSE acc.defsub,
-                    universal |-> keep /\ NoConditions(nb)]
+                    defsub |-> IF fold \/ (applies /\ ~acc.applied) THEN font.fvs[r].sub ELSE acc.defsub,
+                    universal |-> univ]
        IN FvLoop(font, nlims, r + 1, acc2, ideal)
 FvStart(font) == [recs |-> <<>>, applied |-> FALSE, defsub |-> font.defsub, universal |-> FALSE]
 InstantiateFvsWith(font, nlims, ideal) ==
